@@ -99,7 +99,8 @@ TARGETED = MUST_IFC + [
     'ON ERROR GOTO 80:ERROR 5:LIST', 'ON ERROR GOTO 10:LIST', 'COMMON S$', 'CHAIN "M.BAS"', 'CHAIN "P.BAS",40',
     'FOR I=0 TO 300:PRINT CHR$(PEEK(I));:NEXT', 'WIDTH "LPT1:",80:LLIST', 'OPEN "SCRN:" FOR OUTPUT AS 1:LIST ,"SCRN:"',
     'DRAW "X"+VARPTR$(S$)', 'PLAY "X"+VARPTR$(S$)', 'PRINT VARPTR(S$)', 'SWAP S$,A$:PRINT A$', 'LSET S$="":PRINT S$',
-    'EDIT .', 'LIST 40-40', 'SYSTEM', 'SHELL', 'PRINT FRE("")', 'SAVE "CAS1:X",A', 'SAVE "C:S3.BAS",A',
+    'EDIT .', 'LIST 40-40', 'SYSTEM', 'SHELL', 'SAVE "LPT1:",P', 'SAVE "LPT1:X",P', 'SAVE "SCRN:",P', 'SAVE "COM1:",P',
+    'SAVE "KYBD:",P', 'SAVE "LPT1:"', 'SAVE "SCRN:"', 'LIST ,"COM1:"', 'LIST ,"LPT2:"', 'LIST ,"CAS1:"', 'SAVE "CAS1:X"', 'PRINT FRE("")', 'SAVE "CAS1:X",A', 'SAVE "C:S3.BAS",A',
 ] + ['PRINT PEEK(%d)' % a for a in range(4700, 4780, 4)] + \
     ['BSAVE "B%d",%d,%d' % (i, a, n) for i, (a, n) in enumerate([(0, 65535), (4717, 200), (1, 1)])]
 
@@ -326,7 +327,8 @@ def _run_sequence(part, mount, keep, base, ref, stmts, ctx, must_ifc=False):
 def _single_statements(quick):
     nums = ['10', '40', '0', '-1', '65535', '4720'] if quick else ['10', '40', '0', '-1', '255', '32767', '65535', '65536', '4720', '1450']
     strs = ['"P.BAS"', '"M.BAS"', '"SCRN:"', '"LPT1:"', '"O.TXT"', 'S$'] if quick else \
-        ['"P.BAS"', '"M.BAS"', '"SCRN:"', '"LPT1:"', '"O.TXT"', 'S$', '"KYBD:"', '"*.*"', '""', '"C:\\P"']
+        ['"P.BAS"', '"M.BAS"', '"SCRN:"', '"LPT1:"', '"O.TXT"', 'S$', '"KYBD:"', '"*.*"', '""', '"C:\\P"', '"COM1:"',
+         '"CAS1:"', '"LPT1:X"']
     out = []
     seen = set()
     for kw in sorted(A.STATEMENTS):
